@@ -32,6 +32,13 @@ thread_local! {
     pub static FAULT: Cell<u64> = const { Cell::new(0) };
     /// number of law calls since the last reset
     pub static CALLS: Cell<u64> = const { Cell::new(0) };
+    /// `true` on the worker threads of hcsched (C07): a kernel's `retry()` really blocks / restarts under the scheduler
+    /// instead of being reported as `retry` (which is what a single-threaded driver must do)
+    pub static REAL_RETRY: Cell<bool> = const { Cell::new(false) };
+}
+
+pub fn real_retry() -> bool {
+    REAL_RETRY.with(Cell::get)
 }
 
 pub fn intern(n: Node) -> u32 {
